@@ -62,6 +62,8 @@ struct GenFrame {
     blend: bool,
     dispose: bool,
     payload: Payload,
+    /// reserved bits 2..7 of the ANMF flags byte (writers leave them 0, readers must ignore them)
+    reserved: u8,
 }
 
 fn anmf(f: &GenFrame) -> Vec<u8> {
@@ -71,7 +73,7 @@ fn anmf(f: &GenFrame) -> Vec<u8> {
     d.extend_from_slice(&u24(f.w - 1));
     d.extend_from_slice(&u24(f.h - 1));
     d.extend_from_slice(&u24(f.duration));
-    d.push((if f.blend { 0 } else { 2 }) | (if f.dispose { 1 } else { 0 }));
+    d.push((if f.blend { 0 } else { 2 }) | (if f.dispose { 1 } else { 0 }) | (f.reserved & 0xfc));
     d.extend_from_slice(&f.payload.chunks);
     chunk(b"ANMF", &d)
 }
@@ -458,6 +460,11 @@ fn libwebp_anim(file: &[u8]) -> Option<Vec<(i32, Vec<u8>)>> {
 // ------------------------------------------------------------------------------------------------------------------
 /// the op string through the public API; same text as the oracle prints
 fn run_ops_impl(file: &[u8], ops: &str) -> String {
+    run_ops_impl_limited(file, ops, None)
+}
+
+/// the same with `set_memory_limit(limit)` applied right after `new` (decoder configuration, not a call of the C07 alphabet)
+fn run_ops_impl_limited(file: &[u8], ops: &str, limit: Option<usize>) -> String {
     let file = file.to_vec();
     let ops = ops.to_string();
     let r = catch(move || {
@@ -465,6 +472,9 @@ fn run_ops_impl(file: &[u8], ops: &str) -> String {
             Ok(d) => d,
             Err(e) => return format!("NEWFAIL {e}"),
         };
+        if let Some(l) = limit {
+            d.set_memory_limit(l);
+        }
         let mut buf = vec![SENTINEL; d.output_buffer_size().unwrap()];
         let mut parts: Vec<String> = vec![];
         for c in ops.chars() {
@@ -689,6 +699,15 @@ fn check_animation(file_rgba: &[u8], ops: &str, ops_on_alpha: bool, st: &mut Sta
     };
     let line = case_line(&a, ops_on_alpha, ops, file_ops);
     let res = run_ops_impl(file_ops, ops);
+    // a finite memory limit that holds two canvases must not change what any call sequence returns (no per-call budget may leak)
+    {
+        let canvas = (a.w as usize) * (a.h as usize) * 4;
+        let lim = run_ops_impl_limited(file_ops, ops, Some(2 * canvas + 16));
+        if lim != res {
+            violate_p(st, 7, format!("{} -> with set_memory_limit(2 canvases + 16 bytes) the same call sequence returns something else: {} ... vs {} ...",
+                                case_line(&a, ops_on_alpha, ops, file_ops), &lim[..lim.len().min(80)], &res[..res.len().min(80)]));
+        }
+    }
     st.files_run += 1;
     {
         let parts: Vec<&str> = res.split('|').collect();
@@ -789,7 +808,7 @@ fn gen_animation(rng: &mut Rng, small: bool, binary_lossless: bool) -> (Vec<u8>,
         let alpha_style = if binary_lossless { rng.below(2) } else { rng.below(4) };
         let px = gen_pixels(fw, fh, rng, alpha_style);
         let payload = encode_payload(kind, &px, fw, fh, rng);
-        frames.push(GenFrame { x, y, w: fw, h: fh, duration: rng.below(1 << 24) as u32 >> rng.below(20), blend: rng.chance(1, 2), dispose: rng.chance(1, 2), payload });
+        frames.push(GenFrame { x, y, w: fw, h: fh, duration: rng.below(1 << 24) as u32 >> rng.below(20), blend: rng.chance(1, 2), dispose: rng.chance(1, 2), payload, reserved: if rng.chance(1, 4) { rng.byte() & 0xfc } else { 0 } });
     }
     let mut bg = [rng.byte(), rng.byte(), rng.byte(), *rng.pick(&[0u8, 255, 128, 200, 1])];
     if bg[0] == bg[2] {
@@ -822,13 +841,13 @@ fn gen_blend_chain(rng: &mut Rng) -> (Vec<u8>, String) {
     let mut frames = vec![];
     // frame 1: the whole canvas := d (no blending)
     let mut r2 = rng.fork();
-    frames.push(GenFrame { x: 0, y: 0, w, h, duration: 10, blend: false, dispose: false, payload: encode_payload(r2.below(2), &konst(d, w, h), w, h, &mut r2) });
+    frames.push(GenFrame { x: 0, y: 0, w, h, duration: 10, blend: false, dispose: false, payload: encode_payload(r2.below(2), &konst(d, w, h), w, h, &mut r2), reserved: 0 });
     // frames 2..: constant s, blended, each starting two columns further left than the one before (right-aligned rectangles)
     let steps = rng.range(2, 4) as u32;
     for k in (0..steps).rev() {
         let x = (2 * k).min(w - 1) & !1;
         let fw = w - x;
-        frames.push(GenFrame { x, y: 0, w: fw, h, duration: 10, blend: true, dispose: false, payload: encode_payload(r2.below(2), &konst(s, fw, h), fw, h, &mut r2) });
+        frames.push(GenFrame { x, y: 0, w: fw, h, duration: 10, blend: true, dispose: false, payload: encode_payload(r2.below(2), &konst(s, fw, h), fw, h, &mut r2), reserved: 0 });
     }
     let bg = [rng.byte(), rng.byte(), rng.byte(), 0];
     let file = build_file(w, h, true, bg, &frames);
@@ -936,31 +955,31 @@ fn corpus(rng: &mut Rng) -> Vec<(Vec<u8>, String)> {
     let solid = |w: u32, h: u32, p: [u8; 4]| -> Vec<u8> { (0..w * h).flat_map(|_| p).collect() };
     let mut v = vec![];
     // F13 + F12: disposed 4x4 frame, then a small frame elsewhere; background B=10 G=20 R=30
-    let f1 = GenFrame { x: 0, y: 0, w: 4, h: 4, duration: 100, blend: true, dispose: true, payload: encode_payload(0, &solid(4, 4, [255, 0, 0, 255]), 4, 4, rng) };
-    let f2 = GenFrame { x: 4, y: 4, w: 2, h: 2, duration: 100, blend: false, dispose: false, payload: encode_payload(0, &solid(2, 2, [0, 255, 0, 255]), 2, 2, rng) };
+    let f1 = GenFrame { x: 0, y: 0, w: 4, h: 4, duration: 100, blend: true, dispose: true, payload: encode_payload(0, &solid(4, 4, [255, 0, 0, 255]), 4, 4, rng), reserved: 0 };
+    let f2 = GenFrame { x: 4, y: 4, w: 2, h: 2, duration: 100, blend: false, dispose: false, payload: encode_payload(0, &solid(2, 2, [0, 255, 0, 255]), 2, 2, rng), reserved: 0 };
     v.push((build_file(8, 8, true, [10, 20, 30, 255], &[f1.clone(), f2]), "FFFRFIF".to_string()));
     // F12 variant: lossy (no alpha) second frame after a disposed first frame
     let lossy: Vec<u8> = (0..64u32).flat_map(|i| [(i * 3) as u8, (i * 5) as u8, 200, 255]).collect();
-    let f2b = GenFrame { x: 8, y: 8, w: 8, h: 8, duration: 7, blend: false, dispose: true, payload: encode_payload(2, &lossy, 8, 8, rng) };
+    let f2b = GenFrame { x: 8, y: 8, w: 8, h: 8, duration: 7, blend: false, dispose: true, payload: encode_payload(2, &lossy, 8, 8, rng), reserved: 0 };
     v.push((build_file(16, 16, true, [10, 20, 30, 40], &[f1.clone(), f2b.clone()]), "FFFSF".to_string()));
     // F12 variant: full-size blended frame after a disposed frame (whole canvas used to be cleared)
-    let f3 = GenFrame { x: 0, y: 0, w: 8, h: 8, duration: 9, blend: true, dispose: false, payload: encode_payload(1, &gen_pixels(8, 8, rng, 1), 8, 8, rng) };
-    let f0 = GenFrame { x: 2, y: 2, w: 6, h: 6, duration: 5, blend: false, dispose: false, payload: encode_payload(0, &gen_pixels(6, 6, rng, 0), 6, 6, rng) };
+    let f3 = GenFrame { x: 0, y: 0, w: 8, h: 8, duration: 9, blend: true, dispose: false, payload: encode_payload(1, &gen_pixels(8, 8, rng, 1), 8, 8, rng), reserved: 0 };
+    let f0 = GenFrame { x: 2, y: 2, w: 6, h: 6, duration: 5, blend: false, dispose: false, payload: encode_payload(0, &gen_pixels(6, 6, rng, 0), 6, 6, rng), reserved: 0 };
     v.push((build_file(8, 8, true, [1, 2, 3, 4], &[f0.clone(), f1.clone(), f3.clone()]), "FFFRFFF".to_string()));
     // F15: three frames, the middle one leaves pixels behind; second pass after reset must start from the background
-    let m = GenFrame { x: 4, y: 0, w: 3, h: 3, duration: 11, blend: false, dispose: false, payload: encode_payload(0, &solid(3, 3, [9, 99, 199, 255]), 3, 3, rng) };
-    let l = GenFrame { x: 0, y: 4, w: 2, h: 2, duration: 12, blend: true, dispose: true, payload: encode_payload(1, &solid(2, 2, [50, 60, 70, 128]), 2, 2, rng) };
+    let m = GenFrame { x: 4, y: 0, w: 3, h: 3, duration: 11, blend: false, dispose: false, payload: encode_payload(0, &solid(3, 3, [9, 99, 199, 255]), 3, 3, rng), reserved: 0 };
+    let l = GenFrame { x: 0, y: 4, w: 2, h: 2, duration: 12, blend: true, dispose: true, payload: encode_payload(1, &solid(2, 2, [50, 60, 70, 128]), 2, 2, rng), reserved: 0 };
     v.push((build_file(8, 8, true, [200, 100, 50, 255], &[f1.clone(), m, l]), "FFFRFFFSFRIFRF".to_string()));
     // F14 (known): opaque blended pixels
-    let o = GenFrame { x: 0, y: 0, w: 2, h: 2, duration: 1, blend: true, dispose: false, payload: encode_payload(0, &[200, 1, 0, 255, 0, 0, 0, 255, 255, 255, 255, 255, 7, 7, 7, 0], 2, 2, rng) };
+    let o = GenFrame { x: 0, y: 0, w: 2, h: 2, duration: 1, blend: true, dispose: false, payload: encode_payload(0, &[200, 1, 0, 255, 0, 0, 0, 255, 255, 255, 255, 255, 7, 7, 7, 0], 2, 2, rng), reserved: 0 };
     v.push((build_file(3, 3, true, [0, 0, 0, 0], &[o]), "FIF".to_string()));
     // lossy with alpha, blended
-    let la = GenFrame { x: 2, y: 2, w: 9, h: 7, duration: 3, blend: true, dispose: true, payload: encode_payload(3, &gen_pixels(9, 7, rng, 3), 9, 7, rng) };
+    let la = GenFrame { x: 2, y: 2, w: 9, h: 7, duration: 3, blend: true, dispose: true, payload: encode_payload(3, &gen_pixels(9, 7, rng, 3), 9, 7, rng), reserved: 0 };
     v.push((build_file(13, 11, true, [5, 6, 7, 8], &[f0, la, f2b_small(rng)]), "FFFFRIF".to_string()));
     v
 }
 fn f2b_small(rng: &mut Rng) -> GenFrame {
-    GenFrame { x: 0, y: 0, w: 5, h: 5, duration: 2, blend: true, dispose: false, payload: encode_payload(2, &gen_pixels(5, 5, rng, 0), 5, 5, rng) }
+    GenFrame { x: 0, y: 0, w: 5, h: 5, duration: 2, blend: true, dispose: false, payload: encode_payload(2, &gen_pixels(5, 5, rng, 0), 5, 5, rng), reserved: 0 }
 }
 
 pub fn run(tier: &str, seed: u64, outdir: &str, extra: &[String]) {
